@@ -116,7 +116,7 @@ Theorem one_axis_two_bins x0 x1 x2 g0 g1 g2 h0 h1 h2 p vx rg cu :
   yields G 80 (CClass "KinScaling" src_KinScaling_init) None
     [VList [nums [x0; x1; x2]]; VList [nums [g0; g1; g2]; nums [h0; h1; h2]]; VList [VStr "a_ani"]] [] rg cu ks cu []
   /\ yields G 80 (CFun src_KinScaling_kin_scaling) (Some ks) [dict [("gamma_pl", vx); ("a_ani", num p)]] [] rg cu
-       (VList [num (interp1 [(x0, g0); (x1, g1); (x2, g2)] p); num (interp1 [(x0, h0); (x1, h1); (x2, h2)] p)]) cu [].
+       (VArr [num (interp1 [(x0, g0); (x1, g1); (x2, g2)] p); num (interp1 [(x0, h0); (x1, h1); (x2, h2)] p)]) cu [].
 Proof. eexists. split; yields_auto. Qed.
 
 (* two axes (3 x 2), one bin: the regular-grid interpolant receives (axes in declared order, grid as supplied) and is evaluated at
@@ -126,7 +126,7 @@ Theorem two_axes x0 x1 x2 y0 y1 g00 g01 g10 g11 g20 g21 pa pg rg cu :
   yields G 80 (CClass "KinScaling" src_KinScaling_init) None
     [VList [nums [x0; x1; x2]; nums [y0; y1]]; VList [VList [nums [g00; g01]; nums [g10; g11]; nums [g20; g21]]]; VList [VStr "a_ani"; VStr "gamma_pl"]] [] rg cu ks cu []
   /\ yields G 80 (CFun src_KinScaling_kin_scaling) (Some ks) [dict [("gamma_pl", num pg); ("a_ani", num pa)]] [] rg cu
-       (VList [num (interpN [[x0; x1; x2]; [y0; y1]]
+       (VArr [num (interpN [[x0; x1; x2]; [y0; y1]]
                             (Node [Node [Leaf g00; Leaf g01]; Node [Leaf g10; Leaf g11]; Node [Leaf g20; Leaf g21]]) [pa; pg])]) cu [].
 Proof. eexists. split; yields_auto. Qed.
 
@@ -134,6 +134,6 @@ Proof. eexists. split; yields_auto. Qed.
 Theorem not_configured_is_one kw rg cu :
   exists ks,
   yields G 80 (CClass "KinScaling" src_KinScaling_init) None [] [] rg cu ks cu []
-  /\ yields G 80 (CFun src_KinScaling_kin_scaling) (Some ks) [dict kw] [] rg cu (VList [num 1]) cu []
-  /\ yields G 80 (CFun src_KinScaling_kin_scaling) (Some ks) [VNone] [] rg cu (VList [num 1]) cu [].
+  /\ yields G 80 (CFun src_KinScaling_kin_scaling) (Some ks) [dict kw] [] rg cu (VArr [num 1]) cu []
+  /\ yields G 80 (CFun src_KinScaling_kin_scaling) (Some ks) [VNone] [] rg cu (VArr [num 1]) cu [].
 Proof. eexists. split; [yields_auto | split; yields_auto]. Qed.
